@@ -58,7 +58,9 @@ def handleFault (j : Json) : R Json := do
   let allowed := (candidates e pid).filter (Spec.allowed p meth r e env)
   return jObj [
     ("model", jObj [("o", jOutcome o), ("sleeps", jNat sleeps), ("wrapped", Json.bool m.wrapped)]),
-    ("spec", jObj [("cell", jOutcome (Spec.contract p.family e env)), ("allowed", jList jOutcome allowed)])]
+    ("spec", jObj [("cell", jOutcome (Spec.contract p.family e env)), ("allowed", jList jOutcome allowed),
+                   ("retries", jNat (if p == .windows && Spec.retriesPartialCopy meth
+                                        && winerror == some Spec.partialCopyCode then Spec.partialCopyRetries else 0))])]
 
 /-- "map.slot[*k]" → (map, slot index, multiplier) through the generated slot maps -/
 def resolve (f : Family) (src : String) : Json :=
@@ -70,17 +72,36 @@ def resolve (f : Family) (src : String) : Json :=
   | some (mp, i) => jObj [("map", Json.str mp), ("idx", jNat i), ("mul", jNat mul)]
   | none => Json.null
 
-def jRows (f : Family) (rows : List (String × String × String × String)) (meth : String) : Json :=
+/-- the specification's reading of "map.slot[*k]": the position at which the native layer of
+    platform `p` (its C source) puts the value labelled with the slot's name — independent of
+    the index the Python map gives the slot -/
+def resolveSpec (p : Platform) (src : String) : Json :=
+  let parts := src.splitOn "*"
+  let mul : Nat := match parts with
+    | [_, k] => k.toNat?.getD 0
+    | _ => 1
+  match (parts.head?.getD "").splitOn "." with
+  | [mp, slot] =>
+    let key := p.family.key ++ "." ++ mp
+    let labels := (Gen.C20.nativeSlotLabels.lookup (key, p.key)).getD []
+    let want := (((Spec.slotLabel.lookup key).getD []).lookup slot).getD []
+    match labels.findIdx? (fun l => want.contains l) with
+    | some i => jObj [("map", Json.str mp), ("idx", jNat i), ("mul", jNat mul)]
+    | none => Json.null
+  | _ => Json.null
+
+def jRows (slot : String → Json) (rows : List (String × String × String × String)) (meth : String) : Json :=
   jList (fun q => jObj [("nt", Json.str q.2.1), ("field", Json.str q.2.2.1), ("src", Json.str q.2.2.2),
-                        ("slot", resolve f q.2.2.2)])
+                        ("slot", slot q.2.2.2)])
     (rows.filter fun q => q.1 == meth)
 
 def handleRecord (j : Json) : R Json := do
-  let f ← strF j "fam" >>= parseFam
+  let p ← strF j "plat" >>= parsePlat
+  let f := p.family
   let meth ← strF j "method"
   return jObj [
-    ("model", jRows f (feedsOf f) meth),
-    ("spec", jRows f ((Spec.slotNamedFor.lookup f.key).getD []) meth)]
+    ("model", jRows (resolve f) (feedsOf f) meth),
+    ("spec", jRows (resolveSpec p) ((Spec.slotNamedFor.lookup f.key).getD []) meth)]
 
 def parseAddrFam (s : String) : R AddrFam :=
   if s == "inet" then .ok .inet else if s == "inet6" then .ok .inet6
